@@ -19,6 +19,7 @@ mod c15;
 mod c14;
 mod wb;
 mod c02;
+mod c05;
 
 use common::*;
 use std::path::PathBuf;
@@ -55,6 +56,7 @@ fn main() {
         "c15" => c15::run(&mut out, tier, seed, replay),
         "c14" => c14::run(&mut out, tier, seed, replay),
         "c02" => c02::run(&mut out, tier, seed, replay),
+        "c05" => c05::run(&mut out, tier, seed, replay),
         _ => {
             eprintln!("unknown property {}", prop);
             std::process::exit(2);
